@@ -25,9 +25,9 @@ func init() {
 			}
 			return evid.Spec{ID: "C08", Level: "model_checking", Exhaustive: true,
 				Rule: fmt.Sprintf("all histories of depth <= %d over {session A,B} x {seq 1,2,3,4,5,253,254,255} x {handler replies, replies+registers a continuation, registers a continuation without replying}, "+
-					"each executed on a fresh scripted connection of the real server; after every event the invoked handler instance, the bytes written and the open/closed state are compared with the connection model; "+
+					"plus all histories of depth <= %d over {session A,B} x {type 1,2,3} x {seq 1,3,5} x {replies, replies+continuation}; each executed on a fresh scripted connection of the real server; after every event the invoked handler instance, the bytes written and the open/closed state are compared with the connection model; "+
 					"sub-trees are pruned only when model and implementation agree that the connection is closed. states = distinct model states, transitions = events executed on the implementation, "+
-					"traces = maximal histories on which every step agreed; distinct_nontrivial = distinct histories containing at least one rejected or continuation-dispatched packet", d),
+					"traces = maximal histories on which every step agreed; distinct_nontrivial = distinct histories containing at least one rejected or continuation-dispatched packet", d, d-1),
 				Assumptions: []string{"mc/ref/connmodel.go is the reference; in the one corner the statement leaves open (request 255 whose reply cannot be sent while a continuation is registered) the model accepts both forgetting the session and keeping it, never a dispatch to the stale continuation"},
 				Extra:       map[string]interface{}{"depth": d, "alphabet_size": 48}}
 		},
@@ -138,9 +138,29 @@ func histString(h []lEvent) string {
 	return "[" + strings.Join(s, " ") + "]"
 }
 
+// c08TypedAlphabet mixes packet types under the same session ids: the session table is per session id, whatever
+// the packet type says.
+func c08TypedAlphabet() []lEvent {
+	var out []lEvent
+	for _, sid := range []uint32{0x1aaaaaaa, 0x2bbbbbbb} {
+		for _, typ := range []int{1, 2, 3} {
+			for _, seq := range []int{1, 3, 5} {
+				for _, act := range []string{"R", "RN"} {
+					out = append(out, lEvent{Sid: sid, Seq: seq, Act: act, Type: typ})
+				}
+			}
+		}
+	}
+	return out
+}
+
 func c08Run(c *Ctx) {
 	depth := tierPick(c.Quick, 4, 5)
-	alpha := c08Alphabet()
+	c08Explore(c, c08Alphabet(), depth)
+	c08Explore(c, c08TypedAlphabet(), tierPick(c.Quick, 3, 4))
+}
+
+func c08Explore(c *Ctx, alpha []lEvent, depth int) {
 	w := newLWorld(c08Key, nil)
 	defer w.W.Stop()
 	execs, capped := enum.Explore(enum.Opts{MaxDev: -1, ShardDepth: 2, ShardK: c.K, ShardN: c.N}, func(ch *enum.C) {
